@@ -126,6 +126,18 @@ fn sql_safe(v: &str) -> bool {
     !v.chars().any(|c| c == '\\' || c.is_control())
 }
 
+/// Option values that make the queries behind SHOW allocate or spawn without bound (batch sizes,
+/// partition counts, buffer capacities ...) are kept out of executed queries: SHOW is an ordinary
+/// query planned and run under the session's options. Their text round trip is covered by c43a.
+fn risky(key: &str, value: &str) -> bool {
+    if is_runtime(key) {
+        return false;
+    }
+    let Ok(x) = value.trim().trim_start_matches('+').parse::<f64>() else { return false };
+    let bound = if ["partition", "concurrency", "parallel", "thread"].iter().any(|w| key.contains(w)) { 64.0 } else { 1024.0 };
+    !(x.abs() <= bound)
+}
+
 fn quote(v: &str) -> String {
     format!("'{}'", v.replace('\'', "''"))
 }
@@ -228,23 +240,6 @@ pub struct Finding {
     pub message: String,
 }
 
-thread_local! {
-    /// result of the last evaluation on this thread (the engine asks for `known_signature` and
-    /// then runs the same case: evaluate once)
-    static LAST: std::cell::RefCell<Option<(u64, Eval)>> = const { std::cell::RefCell::new(None) };
-}
-
-fn evaluate_cached(case: &Case) -> Eval {
-    let h = fnv1a(serde_json::to_string(case).unwrap_or_default().as_bytes());
-    if let Some(e) = LAST.with(|l| l.borrow().as_ref().filter(|(k, _)| *k == h).map(|(_, e)| e.clone())) {
-        LAST.with(|l| *l.borrow_mut() = None);
-        return e;
-    }
-    let e = evaluate(case, false);
-    LAST.with(|l| *l.borrow_mut() = Some((h, e.clone())));
-    e
-}
-
 #[derive(Clone)]
 pub enum Eval {
     Ok { labels: Vec<String>, nontrivial: bool },
@@ -319,6 +314,9 @@ pub fn evaluate(case: &Case, with_runtime_sweep: bool) -> Eval {
     if !sql_safe(&value) {
         return Eval::Discard("value outside the SQL-literal domain (backslash / control character)".into());
     }
+    if risky(&key, &value) {
+        return Eval::Discard("huge numeric value for a session option: kept out of executed queries (text round trip covered by c43a)".into());
+    }
     let s = match Sess::new() {
         Ok(s) => s,
         Err(e) => return Eval::Inconclusive(format!("no runtime: {e}")),
@@ -330,7 +328,7 @@ pub fn evaluate(case: &Case, with_runtime_sweep: bool) -> Eval {
     for (k, v) in &case.base {
         let k = pick_key(&keys, *k);
         let v = val_text(v);
-        if !sql_safe(&v) || k == TEMP_DIR_KEY {
+        if !sql_safe(&v) || k == TEMP_DIR_KEY || risky(&k, &v) {
             continue;
         }
         if is_runtime(&k) {
@@ -576,15 +574,17 @@ impl Property for C43b {
         ]
     }
     fn known_signature(&self, case: &Case) -> Option<String> {
-        // the engine calls this outside its panic guard: a panic here (from the code under test or
-        // from the harness) must surface through `run`, where it is classified, not kill the process
-        match std::panic::catch_unwind(std::panic::AssertUnwindSafe(|| evaluate_cached(case))) {
-            Ok(Eval::Finding(f)) => Some(f.class),
-            _ => None,
-        }
+        // STATIC (the engine calls this outside its watchdog and panic guard, so nothing is executed
+        // here): the open finding `disk-option-set-resets-other-disk-options` can only show when the
+        // case sets two of the three disk-manager options, or sets one and then runs the sweep
+        // (which sets every runtime option to its reported text). Slightly conservative.
+        let keys = all_keys();
+        let disk = |sel: u16| DISK.contains(&pick_key(&keys, sel).as_str());
+        let touches = case.base.iter().filter(|(k, _)| disk(*k)).count() + disk(case.key) as usize;
+        if touches >= 2 || (case.sweep && touches >= 1) { Some("disk-option-set-resets-other-disk-options".into()) } else { None }
     }
     fn run(&self, case: &Case) -> CaseResult {
-        match evaluate_cached(case) {
+        match evaluate(case, false) {
             Eval::Ok { labels, nontrivial } => CaseResult::pass().nontrivial(nontrivial).labels(labels),
             Eval::Finding(f) => CaseResult::violation(format!("[{}] {}", f.class, f.message)).label(format!("class={}", f.class)),
             Eval::Discard(m) => CaseResult::discard(m),
